@@ -12,3 +12,6 @@ import NbioVerif.Properties.C17
 #print axioms ConnFull.c17_fits_accepted_sendfile
 #print axioms ConnFull.c17_full_budget_after_drain
 #print axioms ConnFull.c17_file_ranges_not_counted
+#print axioms ConnFull.c17_inv_nodup
+#print axioms ConnFull.c17_sendfile_nodup_no_overflow
+#print axioms ConnFull.c17_fits_sendfile_nodup_partial
